@@ -72,9 +72,21 @@ func verifLazyCall(which int) {
 // verifLazyN is the number of entry points of verifLazyCall.
 const verifLazyN = 19
 
-var verifTinyPNG = []byte{0x89, 'P', 'N', 'G', 0x0d, 0x0a, 0x1a, 0x0a, 0, 0, 0, 13, 'I', 'H', 'D', 'R', 0, 0, 0, 3, 0, 0, 0, 2, 8, 2, 0, 0, 0, 1, 2, 3, 4, 0, 0, 0, 0, 'I', 'D', 'A', 'T', 0, 0, 0, 0}
-var verifTinyJPEG = []byte{0xff, 0xd8, 0xff, 0xc0, 0, 17, 8, 0, 2, 0, 3, 3, 1, 0x11, 0, 2, 0x11, 0, 3, 0x11, 0, 0xff, 0xda, 0, 2}
-var verifTinyWebP = []byte{'R', 'I', 'F', 'F', 17, 0, 0, 0, 'W', 'E', 'B', 'P', 'V', 'P', '8', 'L', 5, 0, 0, 0, 0x2f, 2, 0x40, 0, 0}
+// small well-formed files that take the loaders through their ancillary-chunk paths too
+// (PNG: tEXt before IDAT; JPEG: APP1 and COM before the frame header; WebP: VP8X + ICCP)
+var verifTinyPNG = []byte{0x89, 'P', 'N', 'G', 0x0d, 0x0a, 0x1a, 0x0a,
+	0, 0, 0, 13, 'I', 'H', 'D', 'R', 0, 0, 0, 3, 0, 0, 0, 2, 8, 2, 0, 0, 0, 1, 2, 3, 4,
+	0, 0, 0, 5, 't', 'E', 'X', 't', 'k', 0, 'v', 'a', 'l', 9, 9, 9, 9,
+	0, 0, 0, 0, 'I', 'D', 'A', 'T', 0, 0, 0, 0}
+var verifTinyJPEG = []byte{0xff, 0xd8,
+	0xff, 0xe1, 0, 6, 'E', 'x', 'i', 'f',
+	0xff, 0xfe, 0, 4, 'h', 'i',
+	0xff, 0xc0, 0, 17, 8, 0, 2, 0, 3, 3, 1, 0x11, 0, 2, 0x11, 0, 3, 0x11, 0,
+	0xff, 0xda, 0, 2}
+var verifTinyWebP = []byte{'R', 'I', 'F', 'F', 42, 0, 0, 0, 'W', 'E', 'B', 'P',
+	'V', 'P', '8', 'X', 10, 0, 0, 0, 0x20, 0, 0, 0, 2, 0, 0, 1, 0, 0,
+	'I', 'C', 'C', 'P', 4, 0, 0, 0, 1, 2, 3, 4,
+	'V', 'P', '8', ' ', 0, 0, 0, 0}
 
 // VerifHarness_C11_Lazy records, for each lazily initialised function, the memory
 // accesses and synchronisation events of the very first call (tables absent) and of a
